@@ -277,6 +277,61 @@ class _ModShim:
         return v
 
 
+class _H5Dataset:
+    def __init__(self, ds, ctl):
+        self._d, self._ctl = ds, ctl
+
+    def __setitem__(self, k, v):
+        self._ctl.tick("h5.Dataset.__setitem__")
+        self._d[k] = v
+
+    def __getitem__(self, k):
+        return self._d[k]
+
+    def resize(self, *a, **k):
+        self._ctl.tick("h5.Dataset.resize")
+        return self._d.resize(*a, **k)
+
+    def __getattr__(self, n):
+        return getattr(self._d, n)
+
+
+class _H5File:
+    """h5py.File whose data-set operations tick as well (create_dataset, resize, element assignment)"""
+
+    def __init__(self, f, ctl):
+        self._f, self._ctl = f, ctl
+
+    def __enter__(self):
+        self._f.__enter__()
+        return self
+
+    def __exit__(self, *exc):
+        return self._f.__exit__(*exc)
+
+    def __getitem__(self, k):
+        return _H5Dataset(self._f[k], self._ctl)
+
+    def create_dataset(self, *a, **k):
+        self._ctl.tick("h5.create_dataset")
+        return _H5Dataset(self._f.create_dataset(*a, **k), self._ctl)
+
+    def __getattr__(self, n):
+        return getattr(self._f, n)
+
+
+class _H5Shim:
+    def __init__(self, real, ctl):
+        self._r, self._ctl = real, ctl
+
+    def File(self, *a, **k):  # noqa: N802
+        self._ctl.tick("h5py.File")
+        return _H5File(self._r.File(*a, **k), self._ctl)
+
+    def __getattr__(self, n):
+        return getattr(self._r, n)
+
+
 class _PdShim:
     def __init__(self, real, ctl):
         self._r, self._ctl = real, ctl
@@ -328,7 +383,7 @@ def json_fault_traces():
                         mod.json = _ModShim(orig[0], ctl, {"dump", "dumps"}, "json")
                         mod.pickle = _ModShim(orig[1], ctl, {"dump", "dumps"}, "pickle")
                         mod.pd = _PdShim(orig[2], ctl)
-                        mod.h5py = _ModShim(orig[3], ctl, {"File"}, "h5py")
+                        mod.h5py = _H5Shim(orig[3], ctl)
                         try:
                             raised = False
                             try:
@@ -393,7 +448,10 @@ def run(tier: str) -> int:
             if t["at"] == "done":
                 key = "json:complete-save"
             if t["at"] == "exc":
-                key = f"json:exception-in:{t['file']}:{'noprev' if t['prev'] is None else 'prev'}"
+                ctx = "noprev" if t["prev"] is None else "prev"
+                if t["file"].startswith("h5.") and t["prev"] is not None:
+                    ctx = "append" if t["before"] == "same-run" else "rewrite"      # the two branches of the series-file logic
+                key = f"json:exception-in:{t['file']}:{ctx}"
         else:
             key = f"sqlite:{t['at']}:{'noprev' if t['prev'] is None else 'prev'}"
         comp = "error" if ev["err"] else {k: v for k, v in ev["comp"].items()}
